@@ -74,14 +74,16 @@ func c09Universe(arity int) [][]string {
 	case 0:
 		return [][]string{{}}
 	case 1:
-		return [][]string{{"a"}, {"b"}, {""}, {"c"}, {"ab"}, {"ba"}}
+		return [][]string{{"a"}, {"b"}, {""}, {"a-"}, {"-a"}, {"a\\-"}}
 	case 2:
-		return [][]string{{"a", "a"}, {"a", "b"}, {"b", "a"}, {"b", "b"}, {"", "a"}, {"a", ""}}
+		// two of the tuples differ only in where a hyphen sits relative to the label boundary
+		return [][]string{{"a", "a"}, {"a-", "b"}, {"a", "-b"}, {"b", "b"}, {"", "a"}, {"a", ""}}
 	}
 	var u [][]string
-	for i := 0; i < 6; i++ {
+	for i := 0; i < 4; i++ {
 		u = append(u, []string{vals[i%3], vals[(i/3)%3], vals[(i+1)%3]})
 	}
+	u = append(u, []string{"a-", "", "b"}, []string{"a", "-", "b"})
 	return u
 }
 
